@@ -10,16 +10,59 @@ namespace sim
    using io_cstream = pegtl::cstream_input< mem_eol, 64 >;
    using io_istream = pegtl::istream_input< mem_eol, 64 >;
 
+   // the other end-of-line policies: plain memory input vs. a stock buffer_input fed by the simulated reader
+   template< typename Eol >
+   using io_mem_eol = pegtl::memory_input< pegtl::tracking_mode::eager, Eol, std::string >;
+   template< typename Eol >
+   using io_buf_eol = pegtl::buffer_input< sim_reader, Eol, std::string, 4 >;
+
+   // parse input type by number (IO_INPUT of io_unit.cpp)
+   template< int K > struct io_input;
+   template<> struct io_input< 0 > { using type = io_mem_eager; };
+   template<> struct io_input< 1 > { using type = io_mem_lazy; };
+   template<> struct io_input< 2 > { using type = io_cstream; };
+   template<> struct io_input< 3 > { using type = io_istream; };
+   template<> struct io_input< 4 > { using type = io_mem_eol< pegtl::eol::cr >; };
+   template<> struct io_input< 5 > { using type = io_mem_eol< pegtl::eol::crlf >; };
+   template<> struct io_input< 6 > { using type = io_mem_eol< pegtl::eol::cr_crlf >; };
+   template<> struct io_input< 7 > { using type = io_mem_eol< pegtl::eol::lf >; };
+   template<> struct io_input< 8 > { using type = io_buf_eol< pegtl::eol::cr >; };
+   template<> struct io_input< 9 > { using type = io_buf_eol< pegtl::eol::crlf >; };
+   template<> struct io_input< 10 > { using type = io_buf_eol< pegtl::eol::cr_crlf >; };
+   template<> struct io_input< 11 > { using type = io_buf_eol< pegtl::eol::lf >; };
+
    // defined in io_unit.cpp, one explicit specialisation per ( program, input type )
    template< int Prog, typename In >
    bool io_parse( In& in, sim_state& root );
 
-   template<> bool io_parse< 1, io_mem_eager >( io_mem_eager&, sim_state& );
-   template<> bool io_parse< 1, io_mem_lazy >( io_mem_lazy&, sim_state& );
-   template<> bool io_parse< 1, io_cstream >( io_cstream&, sim_state& );
-   template<> bool io_parse< 1, io_istream >( io_istream&, sim_state& );
-   template<> bool io_parse< 2, io_mem_eager >( io_mem_eager&, sim_state& );
-   template<> bool io_parse< 2, io_mem_lazy >( io_mem_lazy&, sim_state& );
-   template<> bool io_parse< 2, io_cstream >( io_cstream&, sim_state& );
-   template<> bool io_parse< 2, io_istream >( io_istream&, sim_state& );
+#define SIM_IO_DECL( P, K ) template<> bool io_parse< P, io_input< K >::type >( io_input< K >::type&, sim_state& );
+   SIM_IO_DECL( 1, 0 )
+   SIM_IO_DECL( 1, 1 )
+   SIM_IO_DECL( 1, 2 )
+   SIM_IO_DECL( 1, 3 )
+   SIM_IO_DECL( 2, 0 )
+   SIM_IO_DECL( 2, 1 )
+   SIM_IO_DECL( 2, 2 )
+   SIM_IO_DECL( 2, 3 )
+   SIM_IO_DECL( 2, 4 )
+   SIM_IO_DECL( 2, 5 )
+   SIM_IO_DECL( 2, 6 )
+   SIM_IO_DECL( 2, 7 )
+   SIM_IO_DECL( 2, 8 )
+   SIM_IO_DECL( 2, 9 )
+   SIM_IO_DECL( 2, 10 )
+   SIM_IO_DECL( 2, 11 )
+   SIM_IO_DECL( 3, 0 )
+   SIM_IO_DECL( 3, 1 )
+   SIM_IO_DECL( 3, 2 )
+   SIM_IO_DECL( 3, 3 )
+   SIM_IO_DECL( 4, 0 )
+   SIM_IO_DECL( 4, 1 )
+   SIM_IO_DECL( 4, 2 )
+   SIM_IO_DECL( 4, 3 )
+   SIM_IO_DECL( 5, 0 )
+   SIM_IO_DECL( 5, 1 )
+   SIM_IO_DECL( 5, 2 )
+   SIM_IO_DECL( 5, 3 )
+#undef SIM_IO_DECL
 }  // namespace sim
